@@ -2,6 +2,8 @@
 
 from __future__ import annotations
 
+import dataclasses
+
 from .family import ModelCfg, run_family
 from .tgroups import consts, family
 
@@ -22,7 +24,11 @@ FAMILY = family("C01", [
     # both iteration orders of the scopes' task / child-scope sets (Python sets), model check only
     ModelCfg("c01-n3o3e1-orders", consts(3, 3, 1, '{"tgopen", "close", "spawn", "yield", "wait", "raise"}', orders="{FALSE, TRUE}"),
              tiers=("thorough",)),
+    # five tasks, the two deepest limited to one operation: model check only (> 16 M states)
+    ModelCfg("c01-n5o4-leaf", consts(5, 4, 0, '{"tgopen", "close", "spawn", "yield"}', depth=2, env="{}",
+                                     leaf_from=4), tiers=("thorough",), timeout=7000),
 ])
+FAMILY = dataclasses.replace(FAMILY, directed="C01.json")
 
 
 def main(tier: str, seed: int) -> int:
